@@ -236,6 +236,14 @@ def run_groups(prop, groups, tier, seed, known_ids):
                     continue
                 r['smt_ms'] += int((pr['time_s'] or 0) * 1000)
                 real_fail = [f for f in pr['failed'] if f not in pr['unwind_failed']]
+                if any('not currently supported by Kani' in f['description'] for f in pr['failed']):
+                    # a construct outside Kani was reachable: every other "failure" is undetermined -> tool limit, never an alarm
+                    r['status'] = 'inconclusive'
+                    r['notes'].append(f'{h["name"]}: construct not supported by Kani reachable (tool limit)')
+                    if level != 'proof':
+                        rec['verdict'] = 'TOOL-LIMIT'
+                        r['bounded'].append(rec)
+                    continue
                 if pr['verdict'] == 'SUCCESSFUL':
                     # vacuity: every cover must be satisfied
                     bad_cov = [c for c in pr['covers'] if c[0] != 'SATISFIED']
